@@ -140,9 +140,12 @@ def _cfg(draw, cls, tier, noise_free=False):
     else:
         noise = draw(st.one_of(st.none(), loguniform(-3, 0)))
     kappa = draw(st.sampled_from([1, 1, 1, 1, 1, 30, 1000]))
-    hscale = draw(st.sampled_from([1.0, 1.0, 1.0, 0.1, 10.0]))
+    hscale = draw(st.sampled_from([1.0, 1.0, 1.0, 0.1, 10.0, 1.0, 1e-3,
+                                   1e-6]))
+    pexp = draw(st.sampled_from([0, 0, 0, 0, 0, 0, -6, -12, -20]))
     return dict(K=K, Nr=Nr, Nt=Nt, hseed=draw(seeds), kappa=kappa,
-                hscale=hscale, noise=noise)
+                hscale=hscale, noise=noise, pexp=pexp,
+                noise_scaled=draw(st.booleans()))
 
 
 def _cf_ok(cfg):
@@ -467,6 +470,8 @@ def _p_arg(form, vals, K):
     if form in ("np.float64", "np.float32", "np.int64", "int"):
         # a scalar power as another number type (an element taken from an
         # array, a whole number)
+        if form in ("np.int64", "int") and vals[0] < 0.5:
+            form = "np.float64"      # no whole number at this power level
         if form == "np.float64":
             v = np.float64(vals[0])
         elif form == "np.float32":
@@ -676,10 +681,24 @@ def _postconditions(ctx, solver, cls, cfg, H, P_exp, tags, who="solve"):
         else:
             _close(ctx, "power_not_met", abs(pw / P_exp[k] - 1.0), 1e-9,
                       "user %d |full_F|^2=%r P=%r" % (k, pw, P_exp[k]), tags)
-        _close(ctx, "full_F_parallel_F",
-                  _fro(fk - _fro(fk) * np.asarray(F[k])) / max(_fro(fk),
-                                                                1e-300),
-                  1e-9, "user %d" % k, tags)
+        if cfg.get("pexp") and cls in ("MMSE", "MaxSinr"):
+            # very low SNR: the solution degenerates to fewer streams and the
+            # library's stream reduction takes F and full_F through separate
+            # SVDs, each keeping a column whose phase hangs on a component of
+            # relative size 1e-8 and less: parallel up to a unit complex
+            # factor is all that can be demanded there (seen on the
+            # unchanged tree: factor exp(4e-7j) at P = 1e-22)
+            c = np.vdot(np.asarray(F[k]), fk) / max(_fro(fk), 1e-300)
+            _close(ctx, "full_F_parallel_F",
+                   _fro(fk - _fro(fk) * c * np.asarray(F[k])) /
+                   max(_fro(fk), 1e-300) +
+                   abs(abs(c) - 1.0), 1e-9, "user %d (up to a phase)" % k,
+                   tags)
+            ctx.label("full_F_parallel_F:phase_free(very low SNR)")
+        else:
+            _close(ctx, "full_F_parallel_F",
+                   _fro(fk - _fro(fk) * np.asarray(F[k])) /
+                   max(_fro(fk), 1e-300), 1e-9, "user %d" % k, tags)
     # (ASSUMPTIONS: no identity is demanded when an effective channel
     # W_H*H_kk*full_F is numerically singular - cond > 1e8, e.g. an overloaded
     # max-SINR solution after stream reduction; the library cannot invert it
@@ -1160,6 +1179,14 @@ def _read(ctx, solver, model, cls, what, tags, opi):
         cost = float(np.real(solver.get_cost()))
         fF = model.fullF()
         scale = _leak_oracle(H, fF, model.Ns())[1]
+        nz = model.cfg["noise"]
+        if cls == "AltMin" and nz and scale < 1e-4 * nz:
+            # the library takes the interference subspace from the
+            # eigenvectors of (interference + noise*I): with the noise 1e4
+            # times above the interference they are only known to eps*noise/
+            # interference - no exact cost can be demanded
+            ctx.label("read_skipped:cost_interference_below_noise")
+            return False
         if cls == "MinLeakage":
             ref = _filtered_leak(H, fF, model.W, model.cfg["noise"])
         else:
@@ -1507,7 +1534,44 @@ def _check_hist(case, ctx):
 
 
 # ----------------------------------------------------------------------------
+def _scaled_powers(case):
+    """every power of the case times 10**cfg['pexp'] (absolute power level:
+    normal, or very small as with a path loss / in dBm scales)"""
+    cfg = case.get("cfg", {})
+    e = int(cfg.get("pexp", 0) or 0)
+    hs = float(cfg.get("hscale", 1.0))
+    if not e and hs >= 0.1:
+        return case
+    f = 10.0 ** e
+    if cfg.get("noise_scaled") and cfg.get("noise") is not None and \
+            hs < 0.1:
+        # the noise level follows the channel gain (thermal noise next to
+        # a path loss): the signal-to-noise ratio stays in the usual range.
+        # (Not the power level: a call without a power argument uses P = 1.)
+        case = dict(case, cfg=dict(cfg, noise=float(cfg["noise"]) * hs * hs))
+    if not e:
+        return case
+
+    def rec(x):
+        if isinstance(x, dict):
+            return dict((k, ([float(v) * f for v in val] if k == "pvals"
+                             else rec(val))) for k, val in x.items())
+        if isinstance(x, list):
+            return [rec(v) for v in x]
+        return x
+    return rec(case)
+
+
 def check(case, ctx):
+    case = _scaled_powers(case)
+    if case["cfg"].get("pexp"):
+        ctx.label("powers_x_1e%d" % case["cfg"]["pexp"])
+    if case["cfg"]["hscale"] < 0.1:
+        ctx.label("channel_x_%g" % case["cfg"]["hscale"])
+    if case["cfg"]["hscale"] < 0.1 and \
+            case["cfg"].get("noise") is not None:
+        ctx.label("noise_follows_scale" if case["cfg"].get("noise_scaled")
+                  else "noise_fixed_at_tiny_signal")
     part = case["part"]
     if part == "post":
         return _check_post(case, ctx)
